@@ -231,11 +231,21 @@ pub fn panic_signature(msg: &str) -> String {
 
 /// Drive `check` with cases from `strategy`. Known-signature failures are tolerated and counted;
 /// the first failure with an unknown signature stops the search and is shrunk.
-pub fn run_proptest<C, S>(
+pub fn run_proptest<C, S>(ctx: &WorkerCtx, sub: &'static str, strategy: S, check: impl Fn(&C) -> Outcome) -> WorkerReport
+where
+    C: Debug + Clone + Serialize + 'static,
+    S: Strategy<Value = C>,
+{
+    run_proptest_cfg(ctx, sub, strategy, check, 20000)
+}
+
+/// Like run_proptest with a bound on shrink iterations (expensive real-time cases).
+pub fn run_proptest_cfg<C, S>(
     ctx: &WorkerCtx,
     sub: &'static str,
     strategy: S,
     check: impl Fn(&C) -> Outcome,
+    max_shrink_iters: u32,
 ) -> WorkerReport
 where
     C: Debug + Clone + Serialize + 'static,
@@ -253,7 +263,7 @@ where
         cases: cases as u32,
         failure_persistence: None,
         rng_seed: RngSeed::Fixed(ctx.rng_seed(sub)),
-        max_shrink_iters: 20000,
+        max_shrink_iters,
         max_shrink_time: 120_000,
         max_global_rejects: 1_000_000,
         verbose: 0,
